@@ -1,0 +1,90 @@
+// MIT License
+//
+// Copyright (c) 2022-2026 GoAkt Team
+//
+// Permission is hereby granted, free of charge, to any person obtaining a copy
+// of this software and associated documentation files (the "Software"), to deal
+// in the Software without restriction, including without limitation the rights
+// to use, copy, modify, merge, publish, distribute, sublicense, and/or sell
+// copies of the Software, and to permit persons to whom the Software is
+// furnished to do so, subject to the following conditions:
+//
+// The above copyright notice and this permission notice shall be included in all
+// copies or substantial portions of the Software.
+//
+// THE SOFTWARE IS PROVIDED "AS IS", WITHOUT WARRANTY OF ANY KIND, EXPRESS OR
+// IMPLIED, INCLUDING BUT NOT LIMITED TO THE WARRANTIES OF MERCHANTABILITY,
+// FITNESS FOR A PARTICULAR PURPOSE AND NONINFRINGEMENT. IN NO EVENT SHALL THE
+// AUTHORS OR COPYRIGHT HOLDERS BE LIABLE FOR ANY CLAIM, DAMAGES OR OTHER
+// LIABILITY, WHETHER IN AN ACTION OF CONTRACT, TORT OR OTHERWISE, ARISING FROM,
+// OUT OF OR IN CONNECTION WITH THE SOFTWARE OR THE USE OR OTHER DEALINGS IN THE
+// SOFTWARE.
+
+//go:build verif
+
+package actor
+
+// VerifPassivationEntry is a read-only projection of the passivation manager's
+// bookkeeping for one participant. Verification harness only.
+type VerifPassivationEntry struct {
+	Exists       bool
+	InHeap       bool
+	Paused       bool
+	Pending      bool
+	Enqueued     bool
+	DeadlineNano int64
+	TimeoutNano  int64
+	Baseline     int64
+	MaxMessages  int
+}
+
+func verifProjectEntry(m *passivationManager, key string, locked bool) VerifPassivationEntry {
+	var out VerifPassivationEntry
+	if m == nil {
+		return out
+	}
+	if !locked {
+		m.mu.Lock()
+		defer m.mu.Unlock()
+	}
+	entry, ok := m.entries[key]
+	if !ok {
+		return out
+	}
+	out.Exists = true
+	out.InHeap = entry.index >= 0
+	out.Paused = entry.paused
+	out.Pending = entry.pending
+	out.Enqueued = entry.enqueued
+	out.TimeoutNano = int64(entry.timeout)
+	out.Baseline = entry.baseline
+	out.MaxMessages = entry.maxMessages
+	if !entry.deadline.IsZero() {
+		out.DeadlineNano = entry.deadline.UnixNano()
+	}
+	return out
+}
+
+// VerifPassivationEntryOf projects the manager entry of pid. locked must be true
+// when the caller runs inside a pm.* hook that fires under the manager's mutex
+// (pm.register, pm.unregister, pm.pause, pm.resume, pm.touch, pm.touched).
+func VerifPassivationEntryOf(pid *PID, locked bool) VerifPassivationEntry {
+	return verifProjectEntry(pid.passivationManager, pid.passivationID(), locked)
+}
+
+// VerifLatestActivityNano returns the activity stamp used for time-based passivation.
+func VerifLatestActivityNano(pid *PID) int64 { return pid.latestReceiveTimeNano.Load() }
+
+// VerifLastTouchNano returns the stamp of the last (coalesced) Touch.
+func VerifLastTouchNano(pid *PID) int64 { return pid.lastPassivationTouch.Load() }
+
+// VerifPassivationFlags projects the lifecycle flags tryPassivation looks at.
+func VerifPassivationFlags(pid *PID) (running, stopping, suspended, paused, skipNext, passivating bool) {
+	state := pid.state.Load()
+	return state&uint32(runningState) != 0,
+		state&uint32(stoppingState) != 0,
+		state&uint32(suspendedState) != 0,
+		state&uint32(passivationPausedState) != 0,
+		state&uint32(passivationSkipNextState) != 0,
+		state&uint32(passivatingState) != 0
+}
